@@ -93,6 +93,44 @@ def run(ctx):
                 kill |= set(rng.sample(het, min(len(het), 3)))
             new = [ln for i, ln in enumerate(lines) if i not in kill]
             cases.append((f"{name}-del{mode}-{k}", C.join(new), []))
+    # ligand truncations: every proper subset of the small kit molecules; single / adjacent-pair / random deletions in
+    # the ligands of the test structures; and truncated proteins with --protonate-all (every atom is protonated)
+    from .. import ligandkit as K
+    import itertools
+    base = C.chain_lines("1HPX", "A", 40, 30)
+    cx, cy, cz = C.centroid(base)
+    org = (cx + 14000, cy + 2000, cz)
+    for name in sorted(K.molecules()):
+        ll = K.lines(name, org)
+        if len(ll) > 6 and not ctx.thorough():
+            continue
+        subsets = [s for n in range(1, len(ll)) for s in itertools.combinations(range(len(ll)), n)]
+        if len(subsets) > 40:
+            subsets = rng.sample(subsets, 40 if not ctx.thorough() else 200)
+        for sub in subsets:
+            kept = [ln for i, ln in enumerate(ll) if i not in sub]
+            cases.append((f"kit-{name}-minus-{'+'.join(ll[i][12:16].strip() for i in sub)}", C.join(base + [C.TER] + kept), []))
+    for src, resn in (("1HPX", "KNI"), ("4DFR", "MTX"), ("1FTJ-Chain-A", "GLU")):
+        lines = C.body(C.test_pdb_text(src))
+        lig = [i for i, ln in enumerate(lines) if ln.startswith("HETATM") and ln[17:20] == resn]
+        if not lig:
+            continue
+        ring = lines if src != "4DFR" else [ln for ln in lines if not (C.is_atom(ln) and ln[21] == "B")]
+        picks = []
+        for k in range(24 if ctx.thorough() else 6):
+            n = rng.choice([1, 2, 2, 3, 5])
+            a0 = rng.randrange(len(lig))
+            picks.append(set(lig[a0:a0 + n]) | (set(rng.sample(lig, 2)) if k % 3 == 0 else set()))
+        for k, kill in enumerate(picks):
+            cases.append((f"{src}-{resn}-del-{k}", C.join([ln for i, ln in enumerate(lines) if i not in kill]), []))
+    pa = []
+    for name in (["1HPX"] if not ctx.thorough() else ["1HPX", "3SGB-subset", "1FTJ-Chain-A"]):
+        lines = C.body(C.test_pdb_text(name))
+        atoms = [i for i, ln in enumerate(lines) if C.is_atom(ln)]
+        for k in range(30 if ctx.thorough() else 8):
+            kill = set(rng.sample(atoms, rng.randrange(1, 30)))
+            pa.append((f"{name}-protonate-all-del-{k}", C.join([ln for i, ln in enumerate(lines) if i not in kill]), ["--protonate-all"]))
+    cases += pa
     recs, metas, _ = runbank.run_and_record(ctx, cases)
     texts = {c[0]: c[1] for c in cases}
     for m in metas:
